@@ -3,5 +3,5 @@ CONSTANTS Ids = {1, 2, 3, 5}
   AdvMax = 2
   MaxSteps = 5
 INVARIANTS CurMatches WithinLimit StartedAreOddAndCovered GoAwayCovers
-PROPERTIES NoStartAfterConnError StartOnlyNewIncreasing
+PROPERTIES NoStartAfterConnError StartOnlyNewIncreasing NoStartAfterGoAway
 CHECK_DEADLOCK FALSE
